@@ -582,10 +582,14 @@ func (n *Node) WriteFrameExcept(exceptChannel *Channel, fr frame.Frame) error {
 	return nil
 }
 
-func (n *Node) pushEvent(evt Event) {
+// pushEvent delivers an event to the application.
+// It returns false when the node is terminating and the event has not been delivered.
+func (n *Node) pushEvent(evt Event) bool {
 	select {
 	case n.chEvent <- evt:
+		return true
 	case <-n.terminate:
+		return false
 	}
 }
 
